@@ -171,6 +171,23 @@ def decoder_roles(rep, rule, c, subject_text):
                 rep.unk(rule, site, f"Switch({subject_text}[K:])", f"the Switch decodes a slice of the address starting at {ir.show(K)[:80]}; "
                         "that form is not verified")
                 return None
+    if not sids:
+        # Switch on the lower part of the address, addr[:K] with K other than the address width: the bits from K up are not compared
+        # (nothing else tests them), so every address that differs from a window's addresses only in those bits selects that window
+        for sid, s in c.t.switches.items():
+            sn = c.norm(s)
+            if sn[0] == 'sub' and sn[1] == subj and sn[2][0] == 'slice' and sn[2][1] in (('const', 0), ('const', None)) and sn[2][3] == ('const', 1):
+                K = sn[2][2]
+                full = (('const', None), c.norm(('call', ('name', 'len'), (subj,), ())), c.parse(subject_text.rsplit('.', 1)[0] + ".addr_width"))
+                other_tests = [s2 for sid2, s2 in c.t.switches.items() if sid2 != sid and any(x == subj for x in ir.walk(c.norm(s2)))]
+                if K not in full and not other_tests and not any(
+                        fr[0] in ('if', 'elif') and any(x == subj for x in ir.walk(c.norm(fr[1]))) for d in c.t.drivers for fr in d.dsl
+                        if len(fr) > 1 and isinstance(fr[1], tuple)):
+                    rep.bad(rule, site, f"Switch({subject_text}[:K])",
+                            f"the comparators see only the address bits below K = {ir.show(K)[:70]}; the bits from K up to the address width are "
+                            "tested nowhere, so an address outside every window that agrees with a window's addresses in the low K bits selects "
+                            "that window (strobes and read data for an unassigned address)")
+                    return None
     if len(sids) != 1:
         rep.unk(rule, site, f"Switch({subject_text})", f"found {len(sids)} Switch statements on the bus address")
         return None
@@ -531,7 +548,8 @@ def shadow_hash(rep, idx, rule):
         return (t[0] == 'bin' and t[1] == '%' and t[3] == R) or (t[0] == 'nary' and t[1] == '&' and M in t[2])
     shape = e[0] == 'lin' and e[1] == 0 and len(e[2]) == 2 and any(t == enc.parse("reg_range.start") and k == 1 for t, k in e[2]) and \
         any(wraps(t) and k == 1 for t, k in e[2])
-    other_mod = any(x[0] == 'bin' and x[1] == '%' and x[3] != R for x in ir.walk(e))
+    other_mod = any(x[0] == 'bin' and x[1] == '%' and x[3] != R and
+                    not any(y[0] in ('sub', 'call') and ir.mentions(y, ('name', 'self')) for y in ir.walk(x[3])) for x in ir.walk(e))
     rep.form(shape, rule, enc.fi.site, "encode_offset(o) lies in [start, start + register size)", f"returns {ir.show(e)[:120]}",
              wrong="the offset is wrapped with a modulus other than the power-of-two register size" if other_mod else None)
 
@@ -1129,6 +1147,14 @@ def pure_asserts(rep, rule, idx, module_suffixes, classes=None):
                             w = {loc[2][0] for loc in ef.summary(h).writes if loc[0] == 'self' and loc[2]}
                         except Exception:
                             w = None
+                        if w:
+                            # a private memo of the callee -- an attribute nothing but the callee itself ever reads -- is not a state
+                            # change anybody else can observe: without the assert it is merely filled by the next real call
+                            readers = {g.name for fs_ in f.cls.methods.values() for g in fs_ for y in _ast.walk(g.node)
+                                       if isinstance(y, _ast.Attribute) and isinstance(y.value, _ast.Name) and y.value.id == "self" and
+                                       y.attr in w and isinstance(y.ctx, _ast.Load)}
+                            if readers <= {h.name}:
+                                w = set()
                         if w:
                             bad = f"calls `self.{x.func.attr}()`, which writes {sorted(w)[:3]}"
             what = f"`{_ast.unparse(st)[:70]}` only looks (asserts vanish under python -O)"
@@ -1851,3 +1877,69 @@ def parameter_views(rep, rule, idx, only_modules=None):
                         line=v.lineno)
     rep.count("parameter_views", n)
     return n
+
+
+def textual_memo_keys(rep, rule, idx):
+    """A memo (a dict that files a computed value under a key and hands it out again for the same key) is only right when equal
+    keys mean equal inputs.  A key made of the *text* of an object -- repr(x), str(x), an f-string, x.__name__, type(x).__name__ --
+    or of its hash() is shared by distinct objects that print alike (two Enum / Struct classes of the same name, two layouts with the
+    same field names but other widths): the second one is handed the value computed for the first.  (id(x) keys of objects the table
+    itself keeps alive, and keys that are the value itself, are fine and are not reported.)"""
+    import ast as _ast
+    n = 0
+    TEXT = ("repr", "str", "format", "hash", "ascii")
+    for f in idx.all_functions():
+        binds = {}
+        for st in _ast.walk(f.node):
+            if isinstance(st, _ast.Assign) and len(st.targets) == 1 and isinstance(st.targets[0], _ast.Name):
+                binds.setdefault(st.targets[0].id, []).append(st.value)
+
+        def textual(e, depth=0):
+            """-> the object whose text the key is, or None."""
+            if isinstance(e, _ast.Name) and len(binds.get(e.id, ())) == 1 and depth < 2:
+                return textual(binds[e.id][0], depth + 1)
+            if isinstance(e, _ast.Call) and isinstance(e.func, _ast.Name) and e.func.id in TEXT and len(e.args) == 1:
+                return e.args[0]
+            if isinstance(e, _ast.JoinedStr):
+                vs = [v.value for v in e.values if isinstance(v, _ast.FormattedValue)]
+                return vs[0] if vs else None
+            if isinstance(e, _ast.Attribute) and e.attr in ("__name__", "__qualname__"):
+                return e.value
+            if isinstance(e, _ast.Tuple):
+                for x in e.elts:
+                    t = textual(x, depth)
+                    if t is not None:
+                        return t
+            return None
+        for st in _ast.walk(f.node):
+            # D[K] = E   /   D.setdefault(K, E)
+            tab = key = val = None
+            if isinstance(st, _ast.Assign) and len(st.targets) == 1 and isinstance(st.targets[0], _ast.Subscript):
+                tab, key, val = st.targets[0].value, st.targets[0].slice, st.value
+            elif isinstance(st, _ast.Call) and isinstance(st.func, _ast.Attribute) and st.func.attr == "setdefault" and len(st.args) == 2:
+                tab, key, val = st.func.value, st.args[0], st.args[1]
+            if tab is None or not isinstance(tab, (_ast.Name, _ast.Attribute)):
+                continue
+            # a table that outlives the call: a module-level name or an attribute
+            if isinstance(tab, _ast.Name) and (tab.id in binds or tab.id in f.params):
+                continue
+            n += 1
+            obj = textual(key)
+            if obj is None:
+                continue
+            src = _ast.unparse(obj)
+            if not any(_ast.unparse(x) == src for x in _ast.walk(val)) and not (
+                    isinstance(val, _ast.Name) and any(any(_ast.unparse(x) == src for x in _ast.walk(b)) for b in binds.get(val.id, ()))):
+                continue                                # the stored value is not computed from that object: not a memo of it
+            # is the table read back under the same key (a memo), here or elsewhere in the module?
+            tname = _ast.unparse(tab)
+            reads = any(isinstance(x, _ast.Subscript) and isinstance(x.ctx, _ast.Load) and _ast.unparse(x.value) == tname or
+                        isinstance(x, _ast.Call) and isinstance(x.func, _ast.Attribute) and x.func.attr in ("get", "setdefault") and
+                        _ast.unparse(x.func.value) == tname for g in idx.all_functions() if g.module is f.module for x in _ast.walk(g.node))
+            if reads:
+                rep.bad(rule, f.site, f"memo `{tname}` files what it computes for `{src}` under a key that identifies `{src}`",
+                        f"the key is made of the text of `{src}` (`{_ast.unparse(key)[:50]}`): two different objects that print alike -- two "
+                        "enumeration or layout classes of the same name, two shapes with the same field names -- share the entry, and the second "
+                        "is handed the value computed for the first (its shape, its width, its members)", line=st.lineno)
+    rep.ok(rule, "-", "memo tables are not keyed by the text of the object they describe", f"{n} keyed store(s) into long-lived tables examined",
+           nontrivial=False)
